@@ -131,11 +131,12 @@ def word(i, j, k):
     return "".join(ALPH[x] for x in (i, j, k) if x >= 0)
 
 
-def pwd_roundtrip(i, j, k):
+def pwd_roundtrip(i, j, k, name=None):
     """the REAL server: CWD into the directory, PWD; the reply goes through write_response and the real client's
     parse_response / get_current_directory: the same directory comes back"""
     hb.KEY = ""
-    name = word(hb.conc(i, -1, len(ALPH) - 1), hb.conc(j, -1, len(ALPH) - 1), hb.conc(k, -1, len(ALPH) - 1))
+    if name is None:
+        name = word(hb.conc(i, -1, len(ALPH) - 1), hb.conc(j, -1, len(ALPH) - 1), hb.conc(k, -1, len(ALPH) - 1))
     if not valid_name(name):
         return True
     user = aioftp.User("bob", None, base_path="/srv")
@@ -169,12 +170,13 @@ def mlsx_name(name, is_dir):
     return str(got) == name and got.name == name
 
 
-def list_name(i, j, k, is_dir):
+def list_name(i, j, k, is_dir, name=None):
     """server build_list_string -> client parse_list_line (the LIST fallback)"""
     from . import c07 as G
 
     hb.KEY = ""
-    name = word(hb.conc(i, -1, len(ALPH) - 1), hb.conc(j, -1, len(ALPH) - 1), hb.conc(k, -1, len(ALPH) - 1))
+    if name is None:
+        name = word(hb.conc(i, -1, len(ALPH) - 1), hb.conc(j, -1, len(ALPH) - 1), hb.conc(k, -1, len(ALPH) - 1))
     if not valid_name(name):
         return True
     server, c, path = G.mk_conn(is_dir, name, 3, hb.FIXED_NOW - 50)
@@ -187,11 +189,45 @@ def list_name(i, j, k, is_dir):
     return True
 
 
-def session_names(i, j, k):
+TREES_SEEN = {}
+
+# names on which Unicode normalisation (NFC / NFD / NFKC) is not the identity, and their already-normalised relatives
+UNI = ["e\u0301", "\u00e9", "\u212b", "\u00c5", "A\u030a", "\ufb01", "\u1e9b\u0323", "\U0001d15e", "x\u0301", "\u0130", "\u00df", "I\u0307"]
+
+
+def uni_names(ui, which):
+    """the Mode A conditions on names that are sensitive to Unicode normalisation / case folding"""
+    name = UNI[hb.conc(ui, 0, len(UNI) - 1)]
+    which = hb.conc(which, 0, 4)
+    if which == 0:
+        return pwd_roundtrip(0, 0, 0, name=name)
+    if which == 1:
+        return session_names(0, 0, 0, name=name)
+    if which == 2:
+        return list_name(0, 0, 0, True, name=name) and list_name(0, 0, 0, False, name=name)
+    if which == 3:
+        hb.KEY = "mlsx"
+        return mlsx_name(name, True) and mlsx_name(name, False)
+    hb.KEY = "stored-name"
+    return stored_name(name)
+
+
+def stored_name(name):
+    """MKD / STOR under a name: the backend tree holds exactly that name afterwards"""
+    user = aioftp.User("bob", None, base_path="/srv")
+    server = st.make_server([user])
+    st.build_tree(server, {"/srv": "dir"})
+    pre = dict(user=user, logged=True, cwd="/", passive=True, data=([b"xyz"], None))
+    res = st.dispatcher_session(server, pre, ["MKD " + name, "STOR " + name + "/" + name], listeners=LS)
+    return st.tree_paths(server) == {"/srv": "dir", "/srv/" + name: "dir", "/srv/" + name + "/" + name: b"xyz"}
+
+
+def session_names(i, j, k, name=None):
     """a whole life cycle under one name through the real dispatcher: MKD, CWD, PWD, CDUP, RNFR/RNTO, MLST, STOR, RETR,
     DELE, RMD - every command addresses the object created under that name"""
     hb.KEY = ""
-    name = word(hb.conc(i, -1, len(ALPH) - 1), hb.conc(j, -1, len(ALPH) - 1), hb.conc(k, -1, len(ALPH) - 1))
+    if name is None:
+        name = word(hb.conc(i, -1, len(ALPH) - 1), hb.conc(j, -1, len(ALPH) - 1), hb.conc(k, -1, len(ALPH) - 1))
     if not valid_name(name):
         return True
     user = aioftp.User("bob", None, base_path="/srv")
@@ -207,6 +243,10 @@ def session_names(i, j, k):
     hb.path_done("c08_session", "")
     if codes != want:
         hb.KEY = "life-cycle"
+        return False
+    # what was created is stored under exactly that name (observed when CDUP was delivered, i.e. after MKD / CWD / PWD)
+    if res.states[3]["cwd"] != "/" + name:
+        hb.KEY = "stored-name"
         return False
     if st.tree_paths(server) != {"/srv": "dir"}:
         hb.KEY = "tree"
